@@ -102,6 +102,17 @@ pub fn get_ident( meta: &syn::Meta ) -> syn::Ident {
     } else { abort!( meta,error::EXPECT_IDENT); }
 }
 
+/// an argument that has a meaning only as a bare word ( `word`, not `word(..)` nor `word = value` )
+pub fn expect_word( meta: &syn::Meta, help: Option<&str> ) {
+    match meta {
+        syn::Meta::Path(_) => (),
+        _ => {
+            if let Some(help) = help { abort!(meta,error::EXPECT_IDENT; help=help) }
+            else { abort!(meta,error::EXPECT_IDENT) }
+        },
+    }
+}
+
 pub fn get_idents( nested: &Punctuated::<Meta,Token![,]> ) -> Vec<syn::Ident> {
     nested.into_iter().map(|m|{
         get_ident(m)
